@@ -256,6 +256,8 @@ class Interp:
             st.env[s.name] = ("closure", id(s), s.name)
             self.closures = getattr(self, "closures", {})
             self.closures[id(s)] = (s, dict(st.env), glob, owner)
+            # the captured environment belongs to THIS path (all paths execute the `def` at the same step of the block)
+            st.heap[("closure-env", id(s))] = (s, dict(st.env), glob, owner)
             # decorators applied (functools.wraps(...) is identity for our purposes)
             return [st]
         if isinstance(s, ast.With):
@@ -487,6 +489,7 @@ class Interp:
         if isinstance(e, ast.Lambda):
             self.closures = getattr(self, "closures", {})
             self.closures[id(e)] = (e, dict(st.env), glob, owner)
+            st.heap[("closure-env", id(e))] = (e, dict(st.env), glob, owner)
             return [(st, ("closure", id(e), "<lambda>"))]
         if isinstance(e, (ast.ListComp, ast.GeneratorExp, ast.SetComp, ast.DictComp)):
             # evaluate the element expression once with the targets bound to iteration elements
@@ -600,7 +603,7 @@ class Interp:
                 out.extend(self.apply(fb, nm, args, kw, s2, glob, owner, depth))
             return out
         if isinstance(f, tuple) and f[0] == "closure":
-            node, env, g2, own2 = self.closures[f[1]]
+            node, env, g2, own2 = st.heap.get(("closure-env", f[1])) or self.closures[f[1]]
             return self.inline_fn(node, env, args, kw, st, g2, own2, depth, f[2])
         # the name of a call is read off what the callee DENOTES (self.optimiser_.update_params), not off how the source spells it
         # (opt = self.optimiser_; opt.update_params(...)): local aliases do not change the trace
